@@ -51,6 +51,7 @@ func checkC20(w *World, r *Report) {
 	r.Rule("C20.inventory", "P4,P5,P9", "every panic-capable operation reachable from a message handler, ValidateBasic or query handler is discharged (g1..g5)", 60)
 	r.Rule("C20.nilfield", "P5", "nil-able components of messages (pointer fields, elements of pointer slices, math.Int / sdk.Dec fields) are dereferenced or used with a non-nil-safe method only under a nil test of the same access path, a rejecting validation call, or a preceding element-checking loop, inside the handler's own tree and inside ValidateBasic", 20)
 	r.Rule("C20.nilresult", "P5", "results of the nilable-result API table (GetAccount, GetPubKey, pem.Decode, GetModuleAccount) are tested before being dereferenced or invoked", 6)
+	r.Rule("C20.nilreq", "P5", "every query handler dereferences its request only behind a nil test of it", 18)
 	r.Rule("C20.nilness", "P5", "the x/tools nilness analysis, run on the same SSA, reports no provable nil dereference in production scope", 1)
 	r.Rule("C20.signers", "P8", "for every message type, each field parsed by GetSigners is validated as a bech32 address in ValidateBasic", 17)
 	if !ro.checkFloors(r) {
@@ -226,6 +227,35 @@ func checkC20(w *World, r *Report) {
 		if bad == 0 {
 			r.OK("C20.nilresult", construct, w.Pos(s.Instr.Pos()), fmt.Sprintf("%d dereferencing uses, all dominated by a non-nil test", uses))
 		}
+	}
+
+	// ---------- C20.nilreq ----------
+	for _, q := range flatten(ro.QRY) {
+		req := msgParam(q)
+		if req == nil {
+			continue
+		}
+		edges := NilEdges(q, map[ssa.Value]bool{req: true}, false)
+		bad := 0
+		uses := 0
+		for _, ref := range *req.Referrers() {
+			in := ref.(ssa.Instruction)
+			deref := false
+			switch x := ref.(type) {
+			case *ssa.FieldAddr:
+				deref = x.X == ssa.Value(req)
+			case *ssa.UnOp:
+				deref = x.Op == token.MUL && x.X == ssa.Value(req)
+			}
+			if !deref {
+				continue
+			}
+			uses++
+			if !MustPass(q, edges, in.Block()) {
+				bad++
+			}
+		}
+		r.Check(bad == 0, "C20.nilreq", funcName(q)+": request dereferenced only after the nil test", w.Pos(q.Pos()), fmt.Sprintf("%d dereferences, all behind req != nil", uses), "a query handler dereferences its request without testing it for nil")
 	}
 
 	// ---------- C20.nilness ----------
